@@ -424,6 +424,7 @@ func str2numFunc(scope *scope, args []value) (value, error) {
 	if err != nil {
 		msg := fmt.Sprintf("str2num: cannot parse %q", s.V)
 		setGlobalErr(scope, msg)
+		n = 0 // ParseFloat returns ±Inf for out of range input
 	}
 	return &numVal{V: n}, nil
 }
